@@ -112,11 +112,12 @@ def _fact_names(fact: str) -> set[str]:
 
 
 class _Guards(Problem):
-    def __init__(self, c: Ctx, f: Func) -> None:
+    def __init__(self, c: Ctx, f: Func, entry: frozenset = frozenset()) -> None:
         self.kills = c.eff.call_kills(f)
+        self.entry = entry
 
     def entry_state(self):
-        return frozenset()
+        return self.entry
 
     def join(self, a, b, at):
         common = a & b
@@ -217,6 +218,53 @@ class _Guards(Problem):
                 st |= gen
                 # x = <truthy display>: not tracked; `x = y` copies nothing
         return frozenset(st)
+
+
+def _entry_guards(c: Ctx, f: Func, depth: int = 0) -> frozenset:
+    """Guard facts a private helper may rely on at entry: what holds at *every* call site about the arguments, translated to the
+    parameter names (`"references" in state.env` at the call of `_record(state.env, ...)` becomes `"references" in env`)."""
+    cache = c.__dict__.setdefault("_partial_entry", {})
+    if f in cache:
+        return cache[f]
+    cache[f] = frozenset()
+    sites = c.cg.callers.get(f, [])
+    if depth > 2 or not sites or not f.name.startswith("_") or any(cs.kind not in ("direct", "method") for cs in sites):
+        return frozenset()
+    params = [a.arg for a in f.node.args.posonlyargs + f.node.args.args + f.node.args.kwonlyargs]
+    acc: set[str] | None = None
+    for cs in sites:
+        g = cs.caller
+        gcfg = c.cfg(g)
+        gres = solve(gcfg, _Guards(c, g, _entry_guards(c, g, depth + 1)), widen_after=10**9)
+        amap = {}
+        for pn in params:
+            a = c.eff.arg_for_param(cs, g if False else f, pn)
+            if a is not None and isinstance(a, (ast.Name, ast.Attribute)):
+                amap[U(a)] = pn
+        here: set[str] | None = None
+        for nd in gcfg.owner(cs.node):
+            st = gres.get(nd.id)
+            if st is None:
+                continue
+            have = _resolve(set(st) | _local_guards(g, cs.node, nd.ast if nd.ast is not None else cs.node))
+            tr: set[str] = set()
+            for fact in have:
+                if fact.startswith("K:"):
+                    d, k = fact[2:].split("|", 1)
+                    try:
+                        kconst = isinstance(ast.parse(k, mode="eval").body, ast.Constant)
+                    except SyntaxError:
+                        kconst = False
+                    if d in amap and (kconst or k in amap):
+                        tr.add(f"K:{amap[d]}|{k if kconst else amap[k]}")
+                elif fact.startswith("T:") and fact[2:] in amap:
+                    tr.add("T:" + amap[fact[2:]])
+            here = tr if here is None else here & tr
+        if here is None:
+            continue
+        acc = here if acc is None else acc & here
+    cache[f] = frozenset(acc or ())
+    return cache[f]
 
 
 def _local_guards(f: Func, site: ast.AST, root: ast.AST) -> set[str]:
@@ -556,7 +604,7 @@ def rule_partial(c: Ctx) -> RuleResult:
             continue
         r.functions += 1
         cfg = c.cfg(f)
-        res = solve(cfg, _Guards(c, f), widen_after=10**9)
+        res = solve(cfg, _Guards(c, f, _entry_guards(c, f)), widen_after=10**9)
         for kind, site, recv in sites:
             owners = [n for n in cfg.owner(site) if res.get(n.id) is not None]
             key = f"{f.short}|{kind}|{alpha(f, site)}"
